@@ -41,8 +41,14 @@ def gen_cases(ctx):
             by = [[x, x] for x in lk]
         for d in left:
             d["p"] = rng.randint(0, 5)
+        bare = rng.random() < 0.2
         for d in right:
-            d["q"] = rng.choice(["u", "v", "w"])
+            # (sometimes the right items hold nothing BUT their key entries — a list of ids to keep: a match that merges nothing)
+            if bare:
+                for kk in [kk for kk in d if kk not in [x[1] for x in by]]:
+                    del d[kk]
+            else:
+                d["q"] = rng.choice(["u", "v", "w"])
         if renamed and rng.random() < 0.4:
             # a left item may own an entry named like the RIGHT key (self-referential / lookup joins): it is the
             # left item's data, the join must leave it alone
@@ -77,14 +83,17 @@ def gen_cases(ctx):
                 seq = [names[0]] + (other[:1] or names[1:2]) + [names[0]]
                 by = [[k, k] for k in seq]
         # a (left, right) pair may be written as a tuple or as a two-element list, and also when both names are the same
-        cases.append({"op": op, "left": left, "right": right, "by": by, "spell": rng.choice(["tuple", "tuple", "list", "list", "pair-always"])})
+        case = {"op": op, "left": left, "right": right, "by": by, "spell": rng.choice(["tuple", "tuple", "list", "list", "pair-always"])}
+        if bare and op in ("left", "inner", "semi", "anti") and all(set(d) <= {x[1] for x in by} for d in right):
+            case["bare"] = True       # the right items go in as they are, without the harness's own `rid` tag (an entry of its own)
+        cases.append(case)
     return cases
 
 
 def build(case):
     import dataiter as di
     left = [dict(d, lid=i) for i, d in enumerate(case["left"])]
-    right = [dict(d, rid=i) for i, d in enumerate(case["right"])]
+    right = [dict(d) if case.get("bare") else dict(d, rid=i) for i, d in enumerate(case["right"])]
     return di.ListOfDicts(left), di.ListOfDicts(right)
 
 
@@ -98,6 +107,8 @@ def impl(case):
     spell = case.get("spell", "tuple")
     byarg = [x[0] if (x[0] == x[1] and spell != "pair-always") else ([x[0], x[1]] if spell == "list" else (x[0], x[1])) for x in by]
     res = {"pre_left": state(a, "lid"), "pre_right": state(b, "rid")}
+    if case.get("bare"):
+        res["pre_right"] = [[i, kv] for i, (_, kv) in enumerate(res["pre_right"])]      # (tagged by position for the model)
     b_before = copy.deepcopy([dict(x) for x in b])
     buf = io.StringIO()
     try:
